@@ -164,10 +164,12 @@ def ite_nv(c, a, b):
     n = Or(And(c, an), And(Not(c), bn))
     if n is True:
         return NULL
-    if an is True:
+    if an is True and bv is not None:
         return (n, bv)
-    if bn is True:
+    if bn is True or bv is None:
         return (n, av)
+    if av is None:
+        return (n, bv)
     return (n, sym_ite(c, av, bv))
 
 
@@ -1226,6 +1228,9 @@ class SymSession:
                 else:
                     newvals[name] = cell(ite_nv(
                         m, nv, sqlval(r.vals[name])))
+            self._check_unique(t, newvals, changed={
+                (k if isinstance(k, str) else k.name) for k in values},
+                skip=r, when=m)
             r.vals = newvals
             cnt.append(m)
         return Result(rowcount=count_true(cnt))
@@ -1247,7 +1252,10 @@ class SymSession:
             cnt.append(m)
         return Result(rowcount=count_true(cnt))
 
-    def _check_unique(self, t, vals):
+    def _check_unique(self, t, vals, changed=None, skip=None, when=True):
+        """INSERT: vals is the new row.  UPDATE: vals are the new values of
+        row `skip` under condition `when`; only keys with a changed column
+        can newly clash"""
         from oslo_db import exception as db_exc
         from sqlalchemy import UniqueConstraint
         keys = []
@@ -1258,18 +1266,23 @@ class SymSession:
         # several are violated at once; primary key first of all
         keys = [[c.name for c in t.primary_key.columns]] + keys[::-1]
         for cols in keys:
-            if any(vals[c] is None for c in cols):
+            if changed is not None and not (set(cols) & changed):
+                continue
+            mine = [sqlval(vals[c]) for c in cols]
+            if any(n is True for n, v in mine):
                 continue
             clash = []
             for r in self.view.tables[t.name]:
-                if r.present is False:
+                if r.present is False or r is skip:
                     continue
                 conds = []
-                for c in cols:
+                for c, (mn, mv) in zip(cols, mine):
                     n, v = sqlval(r.vals[c])
-                    conds.append(And(Not(n), eq(v, vals[c])
-                                     if n is not True else False))
-                clash.append(And(r.present, *conds))
+                    conds.append(And(Not(n), Not(mn), eq(v, mv))
+                                 if n is not True else False)
+                clash.append(And(r.present, when, *conds))
+            if not clash:
+                continue
             if fork(zbool(Or(*clash))):
                 raise db_exc.DBDuplicateEntry(columns=cols, value=str(
                     [vals[c] for c in cols]))
